@@ -43,12 +43,26 @@ def build(verbose=False) -> bool:
         rl = os.path.join(REPO, "Cargo.lock")
         if not os.path.exists(hl) or os.path.getmtime(hl) < os.path.getmtime(rl):
             shutil.copyfile(rl, hl)
-        rc, out = _run(["cargo", "build", "--release", "--offline", "--target-dir", TARGET],
-                       hdir)
-        if rc != 0:
-            sys.stderr.write(out[-4000:])
-            sys.stderr.write("\nHARNESS BUILD FAILED (inconclusive, not a violation)\n")
-            return False
+        marker = os.path.join(TARGET, ".hooks_off")
+        if os.environ.get("VERIF_FORCE_NO_HOOKS") == "1":     # testing aid for the fallback below; no registered command sets it
+            rc, out = 1, "forced"
+        else:
+            rc, out = _run(["cargo", "build", "--release", "--offline", "--target-dir", TARGET], hdir)
+        if rc == 0:
+            if os.path.exists(marker):
+                os.remove(marker)
+        else:
+            # The tree may have changed something the dormant hooks read (they reach into matcher internals). Build the
+            # harness without them: every monitor that needs no hook keeps deciding, hook-dependent clauses are skipped.
+            rc2, out2 = _run(["cargo", "build", "--release", "--offline", "--no-default-features", "--target-dir", TARGET], hdir)
+            if rc2 != 0:
+                sys.stderr.write(out[-4000:])
+                sys.stderr.write("\nHARNESS BUILD FAILED (inconclusive, not a violation)\n")
+                return False
+            with open(marker, "w") as f:
+                f.write(out[-2000:])
+            sys.stderr.write("NOTICE: /repo does not compile with feature verif-hooks; harness built WITHOUT hooks - "
+                             "hook-dependent clauses (H1 PDF text runs, H2 snapshots, H3 drain orders) are skipped\n")
         rc, out = _run(["cargo", "build", "--release", "--offline", "-p", "cgt-cli",
                         "--manifest-path", os.path.join(REPO, "Cargo.toml"), "--target-dir", TARGET], REPO)
         if rc != 0:
